@@ -44,3 +44,8 @@ pub struct NoiseSocketState {
 
 /// The real `TcpConnection::negotiate_connection` (incl. the dialed-peer comparison) over a TCP stream.
 pub use crate::transport::tcp::verif_negotiate_connection as tcp_negotiate_connection;
+
+/// The real `WebSocketConnection::negotiate_connection` (incl. the dialed-peer comparison) over a
+/// TCP stream, after the transport's own WebSocket upgrade for the role.
+#[cfg(feature = "websocket")]
+pub use crate::transport::websocket::verif_negotiate_connection as ws_negotiate_connection;
